@@ -521,7 +521,12 @@ pub fn finish(ctx: &Ctx, mut st: Stats, rep: Report, wall_s: f64) -> i32 {
         }
     }
 
-    let fails = std::mem::take(&mut st.fails);
+    let mut fails = std::mem::take(&mut st.fails);
+    {
+        // the same minimal case found by several shards / sections is one violation
+        let mut seen = std::collections::HashSet::new();
+        fails.retain(|f| seen.insert(f.1.fingerprint()));
+    }
     for (_, case, msg) in fails.iter() {
         violations += 1;
         exit = 1;
